@@ -22,7 +22,7 @@ InUse(h) == \/ \E nd \in Threads : <<h, nd>> \in svc.users
 DoCall ==
     /\ n < MaxCalls
     /\ n' = n + 1
-    /\ \E t \in Threads, a \in {"create", "open", "ooc", "drop", "exist"} :
+    /\ \E t \in Threads \ gh.dead, a \in {"create", "open", "ooc", "drop", "exist"} :
          \/ /\ a \in {"create", "open", "ooc"}
             /\ \E c \in DOMAIN Cfgs, h \in Handles : ~InUse(h) /\ Call(t, a, t, c, h)
          \/ /\ a = "drop"
@@ -47,9 +47,20 @@ DoRet ==
                        IF Handle(p) THEN NewS(p.sc) ELSE Dflt, p.v, p.h)
          \/ \E r \in TransientResults : RetTransient(t, p.a, r, 0)
 
-DoQuiescent == Quiescent(IF svc.ex THEN 1 ELSE 0, IF svc.ex THEN 1 ELSE 0, 0, 0) /\ UNCHANGED n
+DoQuiescent == Quiescent(IF svc.ex THEN 1 ELSE 0, IF svc.ex THEN 1 ELSE 0, 0, 0, NodesOf(svc.users), 0, FALSE)
+               /\ UNCHANGED n
 
-MCNext == DoCall \/ DoLin \/ DoRet \/ DoQuiescent
+\* failing environment and crashes (at most one crash; a dead thread makes no further calls: DoCall
+\* is restricted to live threads by Alive)
+DoRetEnv == /\ UNCHANGED n
+            /\ \E t \in Threads, r \in {"InternalFailure", "Open:InternalFailure", "Create:InsufficientPermissions"} :
+                 RetEnv(t, pend[t].a, r, 1)
+DoCrash == /\ UNCHANGED n /\ gh.dead = {}
+           /\ \E t \in Threads : Crash(t, t)
+DoLinCrashed == (\E t \in Threads : LinCrashed(t)) /\ UNCHANGED n
+DoReap == Reap /\ UNCHANGED n
+
+MCNext == DoCall \/ DoLin \/ DoRet \/ DoQuiescent \/ DoRetEnv \/ DoCrash \/ DoLinCrashed \/ DoReap
 MCSpec == MCInit /\ [][MCNext]_mvars
 
 \* a handle number is never in `users` twice
